@@ -252,6 +252,9 @@ func cp(b []byte) []byte {
 }
 
 func (b *shimBatch) PutIfNotExist(key []byte, val []byte, ttl int64) {
+	if b.s.TTL != nil && !*b.s.TTL {
+		ttl = 0 // an engine without TTL support ignores the argument
+	}
 	b.ops = append(b.ops, BatchOp{Kind: "pine", Key: cp(key), Val: cp(val), TTL: ttl})
 	if b.inner != nil {
 		b.inner.PutIfNotExist(key, val, ttl)
@@ -259,6 +262,9 @@ func (b *shimBatch) PutIfNotExist(key []byte, val []byte, ttl int64) {
 }
 
 func (b *shimBatch) CAS(key []byte, newVal []byte, oldVal []byte, ttl int64) {
+	if b.s.TTL != nil && !*b.s.TTL {
+		ttl = 0 // an engine without TTL support ignores the argument
+	}
 	b.ops = append(b.ops, BatchOp{Kind: "cas", Key: cp(key), Val: cp(newVal), Old: cp(oldVal), TTL: ttl})
 	if b.inner != nil {
 		b.inner.CAS(key, newVal, oldVal, ttl)
@@ -266,6 +272,9 @@ func (b *shimBatch) CAS(key []byte, newVal []byte, oldVal []byte, ttl int64) {
 }
 
 func (b *shimBatch) Put(key []byte, val []byte, ttl int64) {
+	if b.s.TTL != nil && !*b.s.TTL {
+		ttl = 0 // an engine without TTL support ignores the argument
+	}
 	b.ops = append(b.ops, BatchOp{Kind: "put", Key: cp(key), Val: cp(val), TTL: ttl})
 	if b.inner != nil {
 		b.inner.Put(key, val, ttl)
